@@ -37,7 +37,7 @@ func newVHostTrie() *vhostTrie {
 	// in to "[::1]" (and vice-versa) even though the IP versions differ.
 	// This might be OK, or maybe it's not desirable. The 'bind' directive
 	// can be used to restrict what interface a listener binds to.
-	return &vhostTrie{edges: make(map[string]*vhostTrie), fallbackHosts: []string{"0.0.0.0", "[::]", ""}}
+	return &vhostTrie{edges: make(map[string]*vhostTrie), fallbackHosts: []string{"0.0.0.0", "::", ""}}
 }
 
 // Insert adds stack to t keyed by key. The key should be
@@ -154,6 +154,10 @@ func (t *vhostTrie) splitHostPath(key string) (host, path string) {
 	hostname, _, err := net.SplitHostPort(host)
 	if err == nil {
 		host = hostname
+	} else if strings.HasPrefix(host, "[") && strings.HasSuffix(host, "]") {
+		// an IPv6 literal without a port; keys with a port
+		// lose their brackets above, so drop them here too
+		host = host[1 : len(host)-1]
 	}
 	return
 }
